@@ -146,10 +146,10 @@ Lemma settled_frame : forall w w' m u l,
   c_queue (w_cl w' m) = c_queue (w_cl w m) ++ l -> Forall (fresh_action w) l ->
   same_obj w w' u ->
   (forall t, In t (w_timers w) -> In t (w_timers w')) ->
-  (forall a, In a (c_queue (w_cl w (uo_owner (w_up w u)))) -> In a (c_queue (w_cl w' (uo_owner (w_up w u))))) ->
+  (P3 w m u -> settled w' m u) ->
   settled w m u -> settled w' m u.
 Proof.
-  intros w w' m u l Hcore Hq Hfresh [Eid [Eow [Elab [Egr [Etr Epu]]]]] Htim Hpq S.
+  intros w w' m u l Hcore Hq Hfresh [Eid [Eow [Elab [Egr [Etr Epu]]]]] Htim Hp3 S.
   destruct (core_fields _ _ Hcore) as [G [_ [_ [_ [R [_ [D _]]]]]]].
   assert (Hbase : base_req (w_cl w' m) (uo_label (w_up w' u)) = base_req (w_cl w m) (uo_label (w_up w u))).
   { unfold base_req. rewrite R, Elab. reflexivity. }
@@ -159,10 +159,294 @@ Proof.
     destruct (last_push u l) as [ts|] eqn:E; [|exact A].
     rewrite (last_push_fresh w u l ts Hfresh E). reflexivity.
   - right. left. destruct B as [B1 [t [B2 B3]]]. split; [congruence|]. exists t. auto.
-  - right. right. left. destruct C as [id' [C1 C2]]. exists id'. rewrite Egr, Eow, Eid. auto.
+  - apply Hp3. exact C.
   - right. right. right. split.
     + unfold insync in *. rewrite Hsel, Eid, D. exact D1.
     + intros g id ts r Hin. rewrite Hq in Hin. apply in_app_iff in Hin. rewrite Hbase, Hsel.
       destruct Hin as [Hin|Hin]; [eapply D2; eauto|].
       rewrite Forall_forall in Hfresh. specialize (Hfresh _ Hin). simpl in Hfresh. subst ts. reflexivity.
+Qed.
+
+Lemma P3_frame : forall w w' m u,
+  same_obj w w' u ->
+  (forall a, In a (c_queue (w_cl w (uo_owner (w_up w u)))) -> In a (c_queue (w_cl w' (uo_owner (w_up w u))))) ->
+  P3 w m u -> P3 w' m u.
+Proof.
+  intros w w' m u [Eid [Eow [_ [Egr _]]]] Hq [id' [C1 C2]]. exists id'. rewrite Egr, Eow, Eid. auto.
+Qed.
+
+Lemma same_obj_evo : forall c w w' u, evo c None w w' -> u < w_nup w -> same_obj w w' u.
+Proof.
+  intros c w w' u [[_ H] _] Hu. destruct (H u Hu ltac:(discriminate)) as [A [B [C [D [_ [E [F _]]]]]]].
+  repeat split; assumption.
+Qed.
+
+Lemma timers_evo : forall c w w', evo c None w w' -> forall t, In t (w_timers w) -> In t (w_timers w').
+Proof.
+  intros c w w' [_ [[l [Ht _]] _]] t Hin. rewrite Ht. apply in_app_iff. left. exact Hin.
+Qed.
+
+(* ---- the publisher serves a requestConns for m: the push of u is queued at m *)
+
+Definition pushes (g id : nat) (l : list (nat * nat)) (w : world) : list action :=
+  flat_map (fun idu =>
+     if negb (Nat.eqb id 0) && negb (Nat.eqb id (fst idu)) then []
+     else [APush g (fst idu) (Some (snd idu)) (uo_tracks (w_up w (snd idu))) (uo_replace (w_up w (snd idu)))]) l.
+
+Lemma pushes_same_heap : forall g id l w1 w2, w_up w1 = w_up w2 -> pushes g id l w1 = pushes g id l w2.
+Proof. intros g id l w1 w2 H. unfold pushes. rewrite H. reflexivity. Qed.
+
+Lemma reqconns_fold_target : forall g t id l w,
+  c_queue (w_cl (reqconns_fold g t id l w) t) = c_queue (w_cl w t) ++ pushes g id l w.
+Proof.
+  induction l as [|x r IH]; intros w; simpl; [rewrite app_nil_r; reflexivity|].
+  destruct (negb (Nat.eqb id 0) && negb (Nat.eqb id (fst x))) eqn:E.
+  - rewrite IH. reflexivity.
+  - rewrite IH. autorewrite with sub. rewrite Nat.eqb_refl. rewrite <- app_assoc. simpl.
+    rewrite (pushes_same_heap g id r (enq t (APush g (fst x) (Some (snd x)) (uo_tracks (w_up w (snd x))) (uo_replace (w_up w (snd x)))) w) w); reflexivity.
+Qed.
+
+Lemma in_pushes : forall g id l w i u,
+  In (i, u) l -> (id = 0 \/ id = i) ->
+  In (APush g i (Some u) (uo_tracks (w_up w u)) (uo_replace (w_up w u))) (pushes g id l w).
+Proof.
+  intros g id l w i u Hin Hid. unfold pushes. apply in_flat_map. exists (i, u). split; [exact Hin|].
+  simpl. destruct Hid as [->| ->]; simpl.
+  - left. reflexivity.
+  - rewrite Nat.eqb_refl. rewrite andb_false_r. left. reflexivity.
+Qed.
+
+Lemma last_push_some_of_in : forall u q g id ts r, In (APush g id (Some u) ts r) q -> last_push u q <> None.
+Proof.
+  intros u q g id ts r Hin E. eapply last_push_none; eauto.
+Qed.
+
+Lemma pump_reqconns_queue : forall w p g m id' q,
+  p < w_n w -> c_dead (w_cl w p) = false ->
+  c_queue (w_cl w p) = AReqConns g m id' :: q -> c_group (w_cl w p) = Some g -> m <> p ->
+  c_queue (w_cl (step w (OpPump p)) m) = c_queue (w_cl w m) ++ pushes g id' (c_up (w_cl w p)) w /\
+  w_up (step w (OpPump p)) = w_up w /\ w_nup (step w (OpPump p)) = w_nup w.
+Proof.
+  intros w p g m id' q Hp Hd Eq Hg Hm. simpl.
+  assert (E : Nat.ltb p (w_n w) && negb (c_dead (w_cl w p)) = true).
+  { apply andb_true_intro. split; [apply Nat.ltb_lt; exact Hp|rewrite Hd; reflexivity]. }
+  rewrite E, Eq. cbv beta iota zeta delta [handle_action].
+  set (w0 := upd_cl p (set_queue q) w).
+  assert (G0 : in_group g (w_cl w0 p) = true).
+  { apply in_group_eq. unfold w0. rewrite upd_cl_same. exact Hg. }
+  rewrite G0. unfold finish. cbn [fst snd].
+  fold (reqconns_fold g m id' (c_up (w_cl w0 p)) w0).
+  destruct (reqconns_fold_heap g m id' (c_up (w_cl w0 p)) w0) as [A [B _]].
+  split; [|split; [rewrite B; reflexivity|rewrite A; reflexivity]].
+  rewrite reqconns_fold_target.
+  assert (Q0 : c_queue (w_cl w0 m) = c_queue (w_cl w m)).
+  { unfold w0, upd_cl. simpl. destruct (Nat.eqb_spec m p); [contradiction|reflexivity]. }
+  assert (U0 : c_up (w_cl w0 p) = c_up (w_cl w p)) by (unfold w0; rewrite upd_cl_same; reflexivity).
+  rewrite Q0, U0. rewrite (pushes_same_heap g id' (c_up (w_cl w p)) w0 w); reflexivity.
+Qed.
+
+Lemma pushes_fresh : forall g id l w, Forall (fresh_action w) (pushes g id l w).
+Proof.
+  intros g id l w. unfold pushes. apply Forall_forall. intros a Ha.
+  apply in_flat_map in Ha. destruct Ha as [[i u] [_ Ha]]. simpl in Ha.
+  destruct (negb (Nat.eqb id 0) && negb (Nat.eqb id i)); [destruct Ha|].
+  destruct Ha as [<-|[]]. simpl. reflexivity.
+Qed.
+
+Lemma pump_reqconns_P1 : forall w p g m id' q u,
+  Inv w -> p < w_n w -> c_dead (w_cl w p) = false ->
+  c_queue (w_cl w p) = AReqConns g m id' :: q -> m <> p ->
+  u < w_nup w -> uo_closed (w_up w u) = false -> uo_owner (w_up w u) = p ->
+  g = uo_group (w_up w u) -> (id' = 0 \/ id' = uo_id (w_up w u)) ->
+  P1 (step w (OpPump p)) m u.
+Proof.
+  intros w p g m id' q u I Hp Hd Eq Hm Hu Hc Ho Hg Hid.
+  destruct (inv_alive _ I u Hu Hc) as [Hl Hgp]. rewrite Ho in Hl, Hgp. rewrite <- Hg in Hgp.
+  destruct (pump_reqconns_queue w p g m id' q Hp Hd Eq Hgp Hm) as [Q [U N]].
+  unfold P1. rewrite Q, U, last_push_app.
+  pose proof (in_pushes g id' (c_up (w_cl w p)) w _ u (lookup_in _ _ _ Hl) Hid) as Hin.
+  destruct (last_push u (pushes g id' (c_up (w_cl w p)) w)) as [ts|] eqn:E.
+  - rewrite (last_push_fresh w u _ ts (pushes_fresh _ _ _ _) E). reflexivity.
+  - exfalso. eapply last_push_some_of_in; eauto.
+Qed.
+
+(* ---- another client acts *)
+
+Lemma owner_live : forall w u, Inv w -> in_range w -> u < w_nup w -> uo_closed (w_up w u) = false ->
+  uo_owner (w_up w u) < w_n w /\ c_dead (w_cl w (uo_owner (w_up w u))) = false /\
+  c_group (w_cl w (uo_owner (w_up w u))) = Some (uo_group (w_up w u)).
+Proof.
+  intros w u I R Hu Hc. destruct (inv_alive _ I u Hu Hc) as [_ Hg].
+  split; [eapply R; eauto|]. split; [|exact Hg].
+  destruct (c_dead (w_cl w (uo_owner (w_up w u)))) eqn:E; [|reflexivity].
+  apply (inv_dead _ I) in E. congruence.
+Qed.
+
+Lemma closed_back : forall c w w' u, evo c None w w' -> u < w_nup w ->
+  uo_closed (w_up w' u) = false -> uo_closed (w_up w u) = false.
+Proof.
+  intros c w w' u [[_ H] _] Hu Hc.
+  destruct (H u Hu ltac:(discriminate)) as [_ [_ [_ [_ [_ [_ [_ [X|[X [Y _]]]]]]]]]]; congruence.
+Qed.
+
+Lemma sync_other_actor : forall w o c m u,
+  Inv w -> in_range w -> ok_op w o -> actor o = Some c -> c <> m ->
+  SInv m w -> u < w_nup w -> relevant (step w o) m u -> settled (step w o) m u.
+Proof.
+  intros w o c m u I Hrange Hok Ha Hcm S Hu Hrel.
+  pose proof (Inv_step w o I Hok) as I'. pose proof (in_range_step w o I Hok Hrange) as R'.
+  assert (Ham : actor o <> Some m) by congruence.
+  destruct (step_fresh w o m Ham) as [Hcore [l [Hq Hfresh]]].
+  pose proof (step_evo w o c I Hok Ha) as HE.
+  pose proof (same_obj_evo c w _ u HE Hu) as Hso.
+  destruct Hrel as [Hu' [Hc' [Ho' [Hg' Hd']]]].
+  destruct Hso as [Eid [Eow [Elab [Egr [Etr Epu]]]]].
+  destruct (core_fields _ _ Hcore) as [G [_ [_ [_ [_ [_ [_ [_ Dd]]]]]]]].
+  assert (Hc : uo_closed (w_up w u) = false) by (eapply closed_back; eauto).
+  assert (Hrel : relevant w m u).
+  { repeat split; auto; congruence. }
+  apply (settled_frame w (step w o) m u l); auto.
+  - repeat split; assumption.
+  - eapply timers_evo; eauto.
+  - (* the requestConns in the publisher's queue *)
+    intro C3. set (p := uo_owner (w_up w u)).
+    destruct (owner_live w u I Hrange Hu Hc) as [Hp [Hdp Hgp]]. fold p in Hp, Hdp, Hgp.
+    destruct (owner_live _ u I' R' Hu' Hc') as [Hp' [Hdp' Hgp']]. rewrite Eow in Hp', Hdp', Hgp'. fold p in Hp', Hdp', Hgp'.
+    assert (Hsame : same_obj w (step w o) u) by (repeat split; assumption).
+    destruct (Nat.eqb_spec p c) as [e|n].
+    + (* the publisher itself acts *)
+      subst c. destruct o as [c' msg|c'|c'|i|x k]; simpl in Ha; inversion Ha; subst c'.
+      * destruct (msg_own w p msg I Hdp') as [[l' Hq'] _].
+        right. right. left. eapply P3_frame; eauto. intros a Hin. fold p. rewrite Hq'. apply in_app_iff. left. exact Hin.
+      * destruct (c_queue (w_cl w p)) as [|a q] eqn:Eq.
+        { destruct C3 as [id' [Hin _]]. fold p in Hin. rewrite Eq in Hin. destruct Hin. }
+        destruct (pump_own w p a q I Eq Hp Hdp Hdp') as [[l' Hq'] _].
+        destruct C3 as [id' [Hin Hid]]. fold p in Hin. rewrite Eq in Hin. destruct Hin as [Hhead|Hin].
+        -- left. subst a. apply (pump_reqconns_P1 w p (uo_group (w_up w u)) m id' q u); auto.
+        -- right. right. left. exists id'. rewrite Egr, Eow, Eid. fold p. split; [|exact Hid].
+           rewrite Hq'. apply in_app_iff. left. exact Hin.
+      * exfalso. simpl in Hdp'.
+        assert (X : Nat.ltb p (w_n w) && negb (c_dead (w_cl w p)) = true).
+        { apply andb_true_intro. split; [apply Nat.ltb_lt; exact Hp|rewrite Hdp; reflexivity]. }
+        rewrite X in Hdp'. rewrite error_close_dead in Hdp'. discriminate.
+    + right. right. left. eapply P3_frame; eauto. intros a Hin. fold p.
+      assert (P : passive p w (step w o)) by (apply step_passive; congruence).
+      destruct P as [_ [l' Hq']]. rewrite Hq'. apply in_app_iff. left. exact Hin.
+Qed.
+
+(* ---- a stream created by this very step has its delayed push pending *)
+
+Lemma nup_del_up_conn' : forall c id push w, w_nup (del_up_conn' c id push w) = w_nup w.
+Proof.
+  intros. unfold del_up_conn', del_up_conn. destruct (lookup id (c_up (w_cl w c))); [|reflexivity].
+  destruct push; [destruct (c_group (w_cl w c))|]; autorewrite with sub; reflexivity.
+Qed.
+
+Lemma nup_leave_fold : forall c l w, w_nup (leave_fold c l w) = w_nup w.
+Proof. induction l as [|x r IH]; intros w; [reflexivity|]. simpl. rewrite IH. apply nup_del_up_conn'. Qed.
+
+Lemma nup_leave_group : forall c w, w_nup (leave_group c w) = w_nup w.
+Proof.
+  intros. unfold leave_group. destruct (c_group (w_cl w c)); [|reflexivity].
+  change (w_nup (leave_fold c (c_up (w_cl w c)) w) = w_nup w). apply nup_leave_fold.
+Qed.
+
+Lemma nup_error_close : forall c w, w_nup (error_close c w) = w_nup w.
+Proof. intros. unfold error_close. change (w_nup (leave_group c w) = w_nup w). apply nup_leave_group. Qed.
+
+Lemma nup_finish : forall c r, w_nup (finish c r) = w_nup (fst r).
+Proof. intros c [w e]. unfold finish. simpl. destruct e; [apply nup_error_close|reflexivity]. Qed.
+
+Lemma nup_unpresent_fold : forall c l w, w_nup (unpresent_fold c l w) = w_nup w.
+Proof.
+  induction l as [|x r IH]; intros w; [reflexivity|]. simpl.
+  pose proof (nup_del_up_conn' c (fst x) true w) as H. unfold del_up_conn' in H.
+  destruct (del_up_conn c (fst x) true w); rewrite IH; [reflexivity|]. exact H.
+Qed.
+
+Lemma nup_handle_action : forall c a w, w_nup (fst (handle_action c a w)) = w_nup w.
+Proof.
+  intros c a w. destruct a as [g id up ts r|g t id|g give| |]; cbv beta iota zeta delta [handle_action].
+  - destruct (in_group g (w_cl w c)); [|reflexivity]. destruct (push_down_conn_heap c id up ts r w) as [A _]. exact A.
+  - destruct (in_group g (w_cl w c)); cbn [fst]; [|reflexivity].
+    destruct (reqconns_fold_heap g t id (c_up (w_cl w c)) w) as [A _]. exact A.
+  - destruct (in_group g (w_cl w c)); reflexivity.
+  - destruct (c_group (w_cl w c)); cbn [fst]; [|reflexivity].
+    destruct (c_present (w_cl w c)); cbn [fst]; [reflexivity|]. apply nup_unpresent_fold.
+  - reflexivity.
+Qed.
+
+Lemma nup_offer_tail : forall c id replace u s w, w_nup (offer_tail c id replace u s w) = w_nup w.
+Proof.
+  intros. unfold offer_tail. set (w2 := if Nat.eqb replace 0 then w else _).
+  assert (H : w_nup w2 = w_nup w).
+  { unfold w2. destruct (Nat.eqb replace 0); [reflexivity|]. rewrite nup_del_up_conn'. reflexivity. }
+  destruct s; [destruct (uo_closed (w_up w2 u))|..]; exact H.
+Qed.
+
+(* offer_tail does not touch the pushed flag nor the timers *)
+Lemma offer_tail_pushed : forall c id replace u s w x,
+  uo_pushed (w_up (offer_tail c id replace u s w) x) = uo_pushed (w_up w x) /\
+  w_timers (offer_tail c id replace u s w) = w_timers w.
+Proof.
+  intros. unfold offer_tail. set (w2 := if Nat.eqb replace 0 then w else _).
+  assert (H : uo_pushed (w_up w2 x) = uo_pushed (w_up w x) /\ w_timers w2 = w_timers w).
+  { unfold w2. destruct (Nat.eqb replace 0); [auto|].
+    unfold del_up_conn', del_up_conn. simpl.
+    destruct (lookup replace (c_up (w_cl w c))); simpl.
+    - destruct (Nat.eqb x n), (Nat.eqb x u); simpl; auto.
+    - destruct (Nat.eqb x u); simpl; auto. }
+  destruct s; [destruct (uo_closed (w_up w2 u))|..]; exact H.
+Qed.
+
+Definition newobj (w w' : world) : Prop :=
+  forall u, w_nup w <= u -> u < w_nup w' ->
+    uo_pushed (w_up w' u) = false /\ exists t, In t (w_timers w') /\ t_up t = u.
+
+Lemma newobj_same : forall w w', w_nup w' = w_nup w -> newobj w w'.
+Proof. intros w w' H u H1 H2. lia. Qed.
+
+Lemma newobj_got_offer : forall c id label replace s w, newobj w (got_offer c id label replace s w).
+Proof.
+  intros. unfold got_offer.
+  destruct (get_down id (c_down (w_cl w c))); [apply newobj_same; reflexivity|].
+  destruct (lookup id (c_up (w_cl w c))); [apply newobj_same; apply nup_offer_tail|].
+  assert (Hcase : forall g, newobj w (offer_tail c id replace (w_nup w) s (new_up_conn c id label g w))).
+  { intros g u H1 H2. rewrite nup_offer_tail in H2. simpl in H2.
+    assert (u = w_nup w) by lia. subst u.
+    destruct (offer_tail_pushed c id replace (w_nup w) s (new_up_conn c id label g w) (w_nup w)) as [A B].
+    rewrite A, B. unfold new_up_conn, new_timer. simpl. rewrite Nat.eqb_refl. simpl. split; [reflexivity|].
+    exists (mkTimer (w_nup w) g). split; [apply in_app_iff; right; left; reflexivity|reflexivity]. }
+  destruct s; destruct (c_group (w_cl w c)); try (apply newobj_same; reflexivity); apply Hcase.
+Qed.
+
+Lemma newobj_step : forall w o, Inv w -> ok_op w o -> newobj w (step w o).
+Proof.
+  intros w o I Hok.
+  assert (Hfin : forall c r, newobj w (fst r) -> (forall x, uo_pushed (w_up (finish c r) x) = uo_pushed (w_up (fst r) x)) ->
+                 w_timers (finish c r) = w_timers (fst r) -> newobj w (finish c r)).
+  { intros c r H Hp Ht u H1 H2. rewrite nup_finish in H2. rewrite Hp, Ht. apply H; auto. }
+  destruct o as [c msg|c|c|i|u k]; simpl.
+  - destruct (Nat.ltb c (w_n w) && negb (c_dead (w_cl w c))); [|apply newobj_same; reflexivity].
+    destruct msg as [g user pres op0|g|req|id req|id label replace s|id|id|id ok|dest|dest give];
+      try solve [apply newobj_same; rewrite nup_finish; cbv beta iota zeta delta [handle_msg];
+           repeat match goal with |- context [match ?x with _ => _ end] => destruct x end;
+           cbn [fst]; autorewrite with sub; try reflexivity;
+           try apply nup_leave_group; try apply nup_del_up_conn';
+           try (unfold close_down_conn, negotiate; repeat match goal with |- context [if ?b then _ else _] => destruct b end; reflexivity)].
+    (* the offer *)
+    intros u H1 H2. rewrite nup_finish in H2.
+    cbv beta iota zeta delta [handle_msg] in *.
+    destruct (Nat.eqb id 0); cbn [fst] in *; [lia|].
+    destruct (c_present (w_cl w c)); cbn [fst] in *.
+    + unfold finish. cbn [fst snd]. apply newobj_got_offer; auto.
+    + exfalso. revert H2. autorewrite with sub. destruct (Nat.eqb replace 0); [lia|rewrite nup_del_up_conn'; lia].
+  - apply newobj_same.
+    destruct (Nat.ltb c (w_n w) && negb (c_dead (w_cl w c))); [|reflexivity].
+    destruct (c_queue (w_cl w c)); [reflexivity|]. rewrite nup_finish, nup_handle_action. reflexivity.
+  - apply newobj_same. destruct (Nat.ltb c (w_n w) && negb (c_dead (w_cl w c))); [apply nup_error_close|reflexivity].
+  - apply newobj_same. destruct (nth_error (w_timers w) i); [|reflexivity]. unfold fire_timer.
+    destruct (uo_pushed _); [reflexivity|]. autorewrite with sub. reflexivity.
+  - apply newobj_same. destruct (Nat.ltb u (w_nup w) && negb (uo_closed (w_up w u))); [|reflexivity].
+    destruct (c_group (w_cl w (uo_owner (w_up w u)))); reflexivity.
 Qed.
